@@ -1573,8 +1573,14 @@ fn run_case(case: &Case) -> Value {
     let live: Arc<Mutex<BTreeMap<String, String>>> = Arc::new(Mutex::new(BTreeMap::new()));
     let (l1, l2) = (live.clone(), live.clone());
     *LIVE_TASKS.lock().unwrap() = Some(live.clone());
+    // Srtp: one worker thread (plus the driving thread). With two, the answerer's transport
+    // start (triggered inside set_remote_description) races set_local_description(answer) and
+    // fails with "Missing crypto attributes for SDES" whenever the idle worker steals the
+    // woken loop task first — a connect defect outside C17 that would make crash points
+    // unreachable under machine load.
+    let nworkers = std::env::var("C17_RT_WORKERS").ok().and_then(|v| v.parse().ok()).unwrap_or(if case.mode == "Srtp" { 1 } else { 2 });
     let rt = match tokio::runtime::Builder::new_multi_thread()
-        .worker_threads(2)
+        .worker_threads(nworkers)
         .enable_all()
         .on_task_spawn(move |m| {
             let loc = m.spawned_at();
@@ -2048,12 +2054,19 @@ fn main() {
         *weight.entry(format!("{}@{}|{}|{}", h.kind, h.on, cases[h.idx].mode, cases[h.idx].point)).or_default() += 1;
     }
     let w = |h: &Hit| weight.get(&format!("{}@{}|{}|{}", h.kind, h.on, cases[h.idx].mode, cases[h.idx].point)).copied().unwrap_or(0);
-    unlisted.sort_by_key(|h| (cases[h.idx].events.len(), std::cmp::Reverse(w(h)), point_rank(&cases[h.idx]), cases[h.idx].mode.clone(), h.kind.clone()));
+    // ... and first the event under which the class fails at the most points/modes
+    let mut weight_ev: BTreeMap<String, usize> = BTreeMap::new();
+    for h in &unlisted {
+        *weight_ev.entry(format!("{}@{}|{}", h.kind, h.on, cases[h.idx].event_name())).or_default() += 1;
+    }
+    let we = |h: &Hit| weight_ev.get(&format!("{}@{}|{}", h.kind, h.on, cases[h.idx].event_name())).copied().unwrap_or(0);
+    unlisted.sort_by_key(|h| (cases[h.idx].events.len(), std::cmp::Reverse(we(h)), std::cmp::Reverse(w(h)), point_rank(&cases[h.idx]), cases[h.idx].mode.clone(), h.kind.clone()));
     let mut by_class: BTreeMap<String, VecDeque<&Hit>> = BTreeMap::new();
     for h in &unlisted {
         by_class.entry(format!("{}@{}", h.kind, h.on)).or_default().push_back(h);
     }
     let mut order: Vec<&Hit> = vec![];
+    let first_round = by_class.len().min(14);
     loop {
         let mut any = false;
         for q in by_class.values_mut() {
@@ -2072,8 +2085,9 @@ fn main() {
     let mut flaky: Vec<Value> = vec![];
     let mut unconfirmed: Vec<String> = vec![];
     let mut confirm_runs = 0u64;
-    for h in order {
-        if t_confirm.elapsed() > confirm_budget && confirmed > 0 {
+    for (n, h) in order.into_iter().enumerate() {
+        // every failure class gets one candidate confirmed before the time cap applies
+        if n >= first_round && t_confirm.elapsed() > confirm_budget && confirmed > 0 {
             unconfirmed.push(h.sig.clone());
             continue;
         }
